@@ -448,6 +448,30 @@ mod imp2 {
                 if let Some(g) = g { go!(g) } else if let Some(ro) = ro { go!(ro) } else { go!(HalfGauss) }
                 json!({"steps": outs})
             }
+            "targets_eval" => {
+                use mini_mcmc::distributions::{BatchedGradientTarget, GradientTarget, RosenbrockND};
+                let pts: Vec<Vec<f64>> = case["points"].as_array().unwrap().iter().map(f64s).collect();
+                let n = pts.len();
+                let flat: Vec<f64> = pts.concat();
+                let batch = Tensor::<B64, 2>::from_data(TensorData::new(flat.clone(), [n, 2]), &Default::default());
+                let mean = f64s(&case["mean"]);
+                let cov = f64s(&case["cov"]);
+                let g = DiffableGaussian2D::<f64>::new([mean[0], mean[1]], [[cov[0], cov[1]], [cov[2], cov[3]]]);
+                let ro = Rosenbrock2D::<f64> { a: case["a"].as_f64().unwrap_or(1.0), b: case["b"].as_f64().unwrap_or(100.0) };
+                let gb: Vec<f64> = BatchedGradientTarget::<f64, B64>::unnorm_logp_batch(&g, batch.clone()).to_data().to_vec().unwrap();
+                let rb: Vec<f64> = BatchedGradientTarget::<f64, B64>::unnorm_logp_batch(&ro, batch.clone()).to_data().to_vec().unwrap();
+                let gs: Vec<f64> = pts.iter().map(|p| GradientTarget::<f64, B64>::unnorm_logp(&g, t1(p)).into_scalar()).collect();
+                let rs: Vec<f64> = pts.iter().map(|p| GradientTarget::<f64, B64>::unnorm_logp(&ro, t1(p)).into_scalar()).collect();
+                let ggrad: Vec<Vec<f64>> = pts.iter().map(|p| v1(&GradientTarget::<f64, B64>::unnorm_logp_and_grad(&g, t1(p)).1)).collect();
+                let ndpts: Vec<Vec<f64>> = case["nd_points"].as_array().map(|a| a.iter().map(f64s).collect()).unwrap_or_default();
+                let nd: Vec<f64> = if ndpts.is_empty() { vec![] } else {
+                    let d = ndpts[0].len();
+                    let t = Tensor::<B64, 2>::from_data(TensorData::new(ndpts.concat(), [ndpts.len(), d]), &Default::default());
+                    BatchedGradientTarget::<f64, B64>::unnorm_logp_batch(&RosenbrockND {}, t).to_data().to_vec().unwrap()
+                };
+                json!({"gauss_batch": nums(&gb), "gauss_single": nums(&gs), "rosen_batch": nums(&rb), "rosen_single": nums(&rs),
+                       "gauss_grad": ggrad.iter().map(|g| nums(g)).collect::<Vec<_>>(), "rosen_nd": nums(&nd)})
+            }
             "run_continuation" => {
                 // run(a, b) then run(c, 0) on one sampler vs run(a + c, b) on an identically seeded one; state after run
                 use mini_mcmc::nuts::NUTSChain;
@@ -534,6 +558,99 @@ mod imp2 {
                         std::process::exit(0);
                     }
                 }
+            }
+            "progress_terminates_nuts" => {
+                use mini_mcmc::nuts::NUTS;
+                let k = case["chains"].as_u64().unwrap_or(6) as usize;
+                let limit = case["limit_s"].as_u64().unwrap_or(40);
+                let (txd, rxd) = std::sync::mpsc::channel();
+                std::thread::spawn(move || {
+                    let mk = || {
+                        let g = DiffableGaussian2D::<f32>::new([0.0, 0.0], [[1.0, 0.0], [0.0, 1.0]]);
+                        NUTS::<f32, B32, _>::new(g, vec![vec![0.1_f32, 0.2]; k], 0.8).set_seed(9)
+                    };
+                    let (mut a, mut b) = (mk(), mk());
+                    let r = a.run_progress(4, 1);
+                    // run(5, 1) keeps the states after 1..=5 transitions; run_progress(4, 1) the states after 2..=5
+                    let plain: Vec<f32> = b.run(5, 1).to_data().to_vec().unwrap();
+                    let shifted = match &r {
+                        Ok((s, _)) => {
+                            let v: Vec<f32> = s.to_data().to_vec().unwrap();
+                            (0..k).all(|c| (0..4).all(|i| (0..2).all(|d| v[(c * 4 + i) * 2 + d].to_bits() == plain[(c * 5 + i + 1) * 2 + d].to_bits())))
+                        }
+                        Err(_) => false,
+                    };
+                    let _ = txd.send((r.is_ok(), shifted));
+                });
+                match rxd.recv_timeout(std::time::Duration::from_secs(limit)) {
+                    Ok((ok, shifted)) => json!({"timeout": false, "ok": ok, "shifted_trajectory": shifted}),
+                    Err(_) => {
+                        println!("{}", json!({"timeout": true}));
+                        std::process::exit(0);
+                    }
+                }
+            }
+            "init_props" => {
+                use mini_mcmc::core::{init, init_det, init_with_seed};
+                let mut pure = true; let mut prefix = true; let mut shape = true; let mut det = true; let mut norep = true; let mut finite = true;
+                for &(n, d, seed) in &[(3usize, 2usize, 0u64), (65, 1, 7), (70, 3, u64::MAX), (2, 70, 42), (130, 2, 1), (0, 3, 5), (3, 0, 5)] {
+                    let a: Vec<Vec<f64>> = init_with_seed(n, d, seed);
+                    let b: Vec<Vec<f64>> = init_with_seed(n, d, seed);
+                    let big: Vec<Vec<f64>> = init_with_seed(n + 7, d, seed);
+                    shape &= a.len() == n && a.iter().all(|r| r.len() == d);
+                    pure &= a == b;
+                    prefix &= big.len() == n + 7 && big[..n] == a[..];
+                    finite &= a.iter().flatten().all(|x| x.is_finite());
+                    // no draw used twice: all entries pairwise different (equal draws have probability ~0)
+                    let flat: Vec<u64> = big.iter().flatten().map(|x| x.to_bits()).collect();
+                    let mut sorted = flat.clone(); sorted.sort(); sorted.dedup();
+                    norep &= sorted.len() == flat.len();
+                    let f: Vec<Vec<f32>> = init_with_seed(n, d, seed);
+                    shape &= f.len() == n && f.iter().all(|r| r.len() == d);
+                }
+                let x: Vec<Vec<f64>> = init_det(5, 3);
+                det &= x == init_with_seed::<f64>(5, 3, 42);
+                let y: Vec<Vec<f64>> = init(66, 2);
+                shape &= y.len() == 66 && y.iter().all(|r| r.len() == 2);
+                let fy: Vec<u64> = y.iter().flatten().map(|v| v.to_bits()).collect();
+                let mut sy = fy.clone(); sy.sort(); sy.dedup();
+                norep &= sy.len() == fy.len();
+                json!({"shape": shape, "pure": pure, "prefix": prefix, "init_det_is_seed_42": det, "no_draw_used_twice": norep, "finite": finite})
+            }
+            "categorical_new" => {
+                use mini_mcmc::distributions::{Categorical, Discrete};
+                let w = f64s(&case["weights"]);
+                let c = Categorical::<f64>::new(w.clone());
+                let lp: Vec<f64> = (0..w.len() + 1).map(|i| c.logp(i)).collect();
+                json!({"probs": nums(&c.probs), "logp": nums(&lp)})
+            }
+            "nuts_mu_persist" => {
+                let g = DiffableGaussian2D::<f64>::new([0.0, 1.0], [[4.0, 2.0], [2.0, 3.0]]);
+                let mut c = NUTSChain::<f64, B64, _>::new(g, vec![0.5, -0.5], 0.8).set_seed(4);
+                let _ = c.run(1, 0); // first use: eps0 chosen, no transition, no adaptation yet
+                let a0 = c.verif_adapt();
+                let first_ok = (a0.3 - (10.0 * a0.0).ln()).abs() < 1e-12;
+                let _ = c.run(3, 6); // warm-up adapts epsilon
+                let a1 = c.verif_adapt();
+                // starting another run must not touch H-bar / epsilon-bar / m: observe them right after init (run(1,0) does no transition)
+                let _ = c.run(1, 0);
+                let a1b = c.verif_adapt();
+                let state_kept = a1b.1 == a1.1 && a1b.2 == a1.2 && a1b.4 == a1.4;
+                let _ = c.run(2, 0);
+                let a2 = c.verif_adapt();
+                json!({"eps0": num(a0.0), "mu_after_first_use": num(a0.3), "mu_first_is_ln_10_eps0": first_ok,
+                       "mu_after_warmup_run": num(a1.3), "mu_after_third_run": num(a2.3),
+                       "mu_unchanged_on_second_run": a1.3 == a0.3 && a2.3 == a0.3 && state_kept, "adaptation_state_kept_by_init": state_kept,
+                       "epsilon_after_warmup": num(a1.0)})
+            }
+            "nuts_unseeded_distinct" => {
+                use mini_mcmc::nuts::NUTS;
+                let g = DiffableGaussian2D::<f64>::new([0.0, 0.0], [[1.0, 0.0], [0.0, 1.0]]);
+                let s = NUTS::<f64, B64, _>::new(g, vec![vec![0.0, 0.0]; 4], 0.8);
+                let ch = s.verif_chains();
+                let mut distinct = true;
+                for i in 0..ch.len() { for j in (i + 1)..ch.len() { if ch[i].verif_rng() == ch[j].verif_rng() { distinct = false; } } }
+                json!({"distinct": distinct})
             }
             "nuts_set_seed_max" => {
                 use mini_mcmc::nuts::NUTS;
